@@ -108,7 +108,7 @@ CHECKS = {
         design="DESIGN.md 6 C14"),
     "C15": dict(
         technique="Coq proof (invariant of the load/crash state machine over all histories) + DensityData.__init__ / verify_h5_cache translated from /repo on every run over symbolic file names and proved to act and serve as the model's load + histories with kills, exceptions and interleaved loads on real files",
-        text="Theorems c15_idempotent/raw_untouched over histories of loads through every constructor interleaved with loads interrupted at any step; c15_code_constructor / verify_h5_cache / never_partial_under_trusted_name about the code as translated; legacy behaviours refuted. "
+        text="Theorems c15_idempotent/raw_untouched over histories of loads through every constructor interleaved with loads interrupted at any step; c15_code_constructor / verify_h5_cache / never_partial_under_trusted_name about the code as translated, and c15_code_idempotent: every load of ANY sequence of loads through the translated constructor and verify_h5_cache serves the strand-aware view and leaves the raw file as it was; legacy behaviours refuted. "
              "Exhaustive constructor sequences (length <= 2 quick / 3 thorough) and first loads killed (fork + os._exit, with/without HDF5 flush) or interrupted by an exception at every step, followed by loads, on real files; two loads of different files of one directory interleaved at their start / copy / publish steps.",
         design="DESIGN.md 6 C15"),
     "C16": dict(
